@@ -860,9 +860,18 @@ class Manager:
         if not self.running:
             return
 
+        # `stopped` is queued before the flag is cleared: run() goes on as
+        # long as there is something in the queue, so it cannot fade out and
+        # return between the two steps (stop() from another thread)
+        self.fire(stopped(self))
+
         self._running = False
 
-        self.fire(stopped(self))
+        # (a loop that went idle in between must notice the cleared flag)
+        with self._lock:
+            handling = self._currently_handling
+            if isinstance(handling, generate_events):
+                handling.reduce_time_left(0)
 
         if self.root._executing_thread is None:
             for _ in range(3):
